@@ -17,7 +17,7 @@ mod run;
 
 pub const OP_NAMES: &[&str] = &[
     "TickClient", "TickServer", "Deliver", "Drop", "DeliverAll", "Submit", "Broadcast", "Recv", "Disconnect", "NewClient", "Mutate", "Replay",
-    "SockErr", "CrashClient",
+    "SockErr", "CrashClient", "Rejoin",
 ];
 pub const K_TICKCLIENT: u8 = 0;
 pub const K_TICKSERVER: u8 = 1;
@@ -33,6 +33,7 @@ pub const K_MUTATE: u8 = 10;
 pub const K_REPLAY: u8 = 11;
 pub const K_SOCKERR: u8 = 12;
 pub const K_CRASH: u8 = 13;
+pub const K_REJOIN: u8 = 14;
 
 pub const T0_SECS: u64 = 500;
 
@@ -264,8 +265,19 @@ impl WorldC {
 
     /// A new client object in slot j with a fresh identity and a fresh token (tokens are never reused in this engine).
     pub fn new_client(&mut self, j: usize) {
-        let id = self.next_id;
-        self.next_id += 1;
+        self.new_client_as(j, None)
+    }
+
+    /// `identity`: come back under an identity that was used before (a restarted client keeps its user id but gets a new
+    /// socket, hence a new address) instead of a fresh one.
+    pub fn new_client_as(&mut self, j: usize, identity: Option<u64>) {
+        let id = match identity {
+            Some(id) => id,
+            None => {
+                self.next_id += 1;
+                self.next_id - 1
+            }
+        };
         let now = Duration::from_millis(self.sv_ms);
         let unsecure = self.cfg.get("unsecure") == 1;
         let s = &mut self.slots[j];
